@@ -310,7 +310,35 @@ func runTCP(port int, sc *streamCase) (string, int, int, string) {
 	return st, total, len(sc.chunks), replyClass(first)
 }
 
+func pureMain() {
+	dir, err := os.MkdirTemp("", "c13-pure-")
+	if err != nil {
+		fmt.Fprintln(os.Stderr, "HARNESS-ERROR tmp:", err)
+		os.Exit(3)
+	}
+	defer os.RemoveAll(dir)
+	_ = os.Chdir(dir)
+	node, err := server.VerifStartNode(dir, 0, false)
+	if err != nil {
+		fmt.Fprintln(os.Stderr, "HARNESS-ERROR start:", err)
+		os.Exit(3)
+	}
+	in := bufio.NewScanner(os.Stdin)
+	in.Buffer(make([]byte, 1<<20), 64<<20)
+	w := bufio.NewWriterSize(os.Stdout, 1<<20)
+	for in.Scan() {
+		fmt.Fprintln(w, node.VerifPure(in.Text()))
+	}
+	w.Flush()
+	os.RemoveAll(dir)
+	os.Exit(0)
+}
+
 func main() {
+	if len(os.Args) >= 2 && os.Args[1] == "pure" {
+		pureMain()
+		return
+	}
 	if len(os.Args) < 2 || os.Args[1] != "serve" {
 		fmt.Fprintln(os.Stderr, "usage: crashrun serve -dir D -batch F ...")
 		os.Exit(2)
